@@ -4,8 +4,14 @@ import json, sys
 p = '/verif/known_findings.json'
 d = json.load(open(p))
 e = json.loads(sys.argv[1])
-d['findings'] = [x for x in d['findings'] if not (
-    x['property'] == e['property'] and x['mechanism'] == e['mechanism'])]
+same = [x for x in d['findings'] if x['property'] == e['property']
+        and x['mechanism'] == e['mechanism']]
+if same and same[0].get('commit') != e.get('commit') \
+        and '--replace' not in sys.argv:
+    sys.exit('an entry %s %s exists already (commit %s): choose another '
+             'mechanism id or pass --replace' % (
+                 e['property'], e['mechanism'], same[0].get('commit')))
+d['findings'] = [x for x in d['findings'] if x not in same]
 if e['status'] == 'fixed':
     e.setdefault('line', 'fixed: property=%s %s %s' % (e['property'], e['commit'], e['what']))
 else:
